@@ -228,13 +228,14 @@ Fixpoint hist_valid (s : lst) (h : list lop) : Prop :=
 
 Lemma step_inv s o : LInv s -> op_valid s o -> LInv (fst (l_step s o)).
 Proof.
-  intros I V. destruct o as [r p| |id k|id| |id n]; simpl.
+  intros I V. destruct o as [r p| |id k|id| |id n|id]; simpl.
   - apply arrive_inv. assumption.
   - pose proof (accept_inv s I) as A. destruct (accept s) as [s' r]. exact A.
   - pose proof (conn_read_inv s id k I) as A. destruct (conn_read s id k) as [s' [c bs]]. exact A.
   - destruct V as [c [H1 H2]]. eapply conn_close_inv; eassumption.
   - apply listener_close_inv. assumption.
   - apply set_limit_inv. assumption.
+  - exact I.
 Qed.
 
 Theorem final_inv h : forall s, LInv s -> hist_valid s h -> LInv (l_final s h).
